@@ -126,7 +126,7 @@ Proof.
   change (buf (fa_strip r1)) with (buf r1).
   destruct (fb_scan (pieces (buf r1)) ln 0 0) as [[[l p] b]|[[l p] last]]; [split; [reflexivity|exact Hf1]|].
   change (pbyte (fa_strip r1)) with (pbyte r1).
-  apply (IH (set_pbyte (set_buf r1 (skipn (p - 1 - last) (buf r1))) (pbyte r1 + (p - 1 - last))) (l - 1)).
+  apply (IH (set_pline (set_pbyte (set_buf r1 (skipn (p - 1 - last) (buf r1))) (pbyte r1 + (p - 1 - last))) (l - 1)) (l - 1)).
   exact Hf1.
 Qed.
 
@@ -134,8 +134,9 @@ Lemma fa_init_strip fuel ffuel r : FuelOk ffuel r ->
   fa_init fuel ffuel (fa_strip r) = (fa_strip (fst (fa_init fuel ffuel r)), snd (fa_init fuel ffuel r)) /\
   FuelOk ffuel (fst (fa_init fuel ffuel r)).
 Proof.
-  intros Hf. unfold fa_init. destruct (fa_first_byte_strip ffuel fuel r 0 Hf) as [H1 Hf1]. rewrite H1.
-  destruct (fa_first_byte fuel ffuel r 0) as [r1 fb]. cbn [fst snd] in *.
+  intros Hf. unfold fa_init. change (pline (fa_strip r)) with (pline r).
+  destruct (fa_first_byte_strip ffuel fuel r (pline r) Hf) as [H1 Hf1]. rewrite H1.
+  destruct (fa_first_byte fuel ffuel r (pline r)) as [r1 fb]. cbn [fst snd] in *.
   destruct fb as [ln pos b| |k|]; try (split; [reflexivity|exact Hf1]).
   destruct (b =? GT); split; try reflexivity; exact Hf1.
 Qed.
@@ -266,9 +267,9 @@ Theorem fa_seek_strip ffuel r line byte_ : FuelOk ffuel r ->
 Proof.
   intros Hf. unfold fa_seek.
   change (pbyte (fa_strip r)) with (pbyte r). change (start (fa_strip r)) with (start r).
-  change (buf (fa_strip r)) with (buf r).
+  change (buf (fa_strip r)) with (buf r). change (st (fa_strip r)) with (st r).
   destruct ((0 <=? Z.of_nat (start r) + (Z.of_nat byte_ - Z.of_nat (pbyte r)))%Z &&
-            (Z.of_nat (start r) + (Z.of_nat byte_ - Z.of_nat (pbyte r)) <? Z.of_nat (length (buf r)))%Z).
+            (Z.of_nat (start r) + (Z.of_nat byte_ - Z.of_nat (pbyte r)) <? Z.of_nat (length (buf r)))%Z && negb (fa_state_eqb (st r) FNew)).
   { split; [reflexivity|exact Hf]. }
   change (src (fa_strip r)) with (strip_src (src r)).
   destruct (src_seek_strip (src r) byte_) as [H1 Hrs]. rewrite H1.
